@@ -145,6 +145,13 @@ def check(case, rec):
             from biom import load_table
             jpath = os.path.join(d, "in.json")
             c01.write(t, jpath + ".h5", dict(case, writer="to_hdf5"))
+            if len(case["generated_by"]) % 2:
+                # the input comes from an older writer (format 2.0, another
+                # producer): what convert writes is a 2.1 file of its own
+                with h5py.File(jpath + ".h5", "r+") as f_:
+                    f_.attrs["format-version"] = (2, 0)
+                    f_.attrs["generated-by"] = "some other producer 0.1"
+                rec.cls("convert-input:stamped-2.0")
             from ..cli import invoke
             # --collapsed-observations / --collapsed-samples: the axis
             # metadata becomes {'collapsed_ids': sorted category names}
